@@ -45,6 +45,9 @@ where
 }
 
 fn format_spectrum<S: State>(spectrum: &Spectrum<S>, sep: &str, precision: usize) -> String {
+    // The formatting machinery supports at most u16::MAX decimals (and panics beyond)
+    let precision = precision.min(usize::from(u16::MAX));
+
     if let Some(first) = spectrum.array.as_slice().first() {
         let mut init = String::new();
         write!(init, "{first:.precision$}").unwrap();
